@@ -45,7 +45,7 @@ type runCase struct {
 	Key     string `json:"key"`    // PAN-OS API key / NSX x-xsrf-token
 	Cookie  string `json:"cookie"` // NSX session cookie
 	FaultAt int    `json:"fault_at"`
-	Fault   string `json:"fault"`   // HTTP: eof | timeout | status | invalid | inactive ; SSH: close | silence | wrongpass
+	Fault   string `json:"fault"`   // HTTP: eof | timeout | status | statuskey | trunc | invalid | inactive ; SSH: close | silence | wrongpass
 	User    string `json:"user"`    // "" = admin
 	Variant int    `json:"variant"` // layout of the keygen response / netspoc config with or without changes
 	Cred    string `json:"cred"`    // "" normal credentials file; "4fields" | "nomatch" | "badpattern": malformed
@@ -377,6 +377,19 @@ func newHTTPSim(reply func(i int, r *http.Request) (c17Reply, map[string]string)
 			}
 			s.srv.CloseClientConnections()
 			return
+		case "trunc":
+			if hj, ok := w.(http.Hijacker); ok {
+				if conn, bufrw, err := hj.Hijack(); err == nil {
+					fmt.Fprintf(bufrw, "HTTP/1.1 200 OK\r\nContent-Type: application/xml\r\nContent-Length: %d\r\n", len(rep.A)+64)
+					for k, v := range hdr {
+						fmt.Fprintf(bufrw, "%s: %s\r\n", k, v)
+					}
+					fmt.Fprintf(bufrw, "\r\n%s", rep.A)
+					bufrw.Flush()
+					conn.Close()
+				}
+			}
+			return
 		case "status":
 			for k, v := range hdr {
 				w.Header().Set(k, v)
@@ -573,6 +586,17 @@ func (e *c17Env) execRun(c *runCase, no int) *runOutcome {
 					rep = c17Reply{Kind: "terr", A: "context deadline exceeded (Client.Timeout exceeded while awaiting headers)", B: "sleep"}
 				case "status":
 					rep = c17Reply{Kind: "status", A: "500", B: "device not ready\n"}
+				case "trunc":
+					// the connection is lost while the body is read; what arrived is all but the last bytes
+					// (for the keygen answer: the <key> element has arrived)
+					cut := len(rep.A) - 5
+					if cut < 0 {
+						cut = 0
+					}
+					rep = c17Reply{Kind: "trunc", A: rep.A[:cut], B: "unexpected EOF"}
+				case "statuskey":
+					// a status other than 200 although the body holds a <key> element
+					rep = c17Reply{Kind: "status", A: "503", B: rep.A}
 				case "invalid":
 					rep = c17Reply{Kind: "fail", A: panInvalid, B: panInvalidMsg}
 				case "inactive":
@@ -598,6 +622,8 @@ func (e *c17Env) execRun(c *runCase, no int) *runOutcome {
 					rep = c17Reply{Kind: "terr", A: "context deadline exceeded (Client.Timeout exceeded while awaiting headers)", B: "sleep"}
 				case "status":
 					rep = c17Reply{Kind: "status", A: "500", B: "device not ready\n"}
+				case "trunc":
+					rep = c17Reply{Kind: "trunc", A: "{", B: "unexpected EOF"}
 				case "invalid":
 					rep = c17Reply{Kind: "fail", A: "invalid", B: nsxInvalidMsg}
 				}
@@ -836,18 +862,53 @@ func (e *c17Env) scanRun(c *runCase, o *runOutcome) {
 					e.res.Count("scan:key-outside-alphabet(&,newline)-visible")
 					continue
 				}
-				// F-C17: every line that shows the key is an error line embedding the request URL
+				if c.Fault == "statuskey" && !strings.HasPrefix(sink, "session") {
+					// the rejected answer (status other than 200) is quoted in the WARNING; no key was obtained
+					e.res.Count("scan:rejected-keygen-answer-quoted-in-warning:" + sink)
+					continue
+				}
+				// F-C17: every line that shows the key is the ERROR>>> line of a request behind the HA
+				// check, embedding the request URL
 				all := true
+				phase, lineKind := "after_ha", "error_marker"
 				needle := secretForms(secret)[form]
 				for _, line := range strings.Split(hay[rel], "\n") {
-					if strings.Contains(line, needle) && !strings.Contains(line, `Get "`+o.addr+`/api/?key=`) &&
-						!strings.Contains(line, `parse "`+o.addr+`/api/?key=`) {
+					if !strings.Contains(line, needle) {
+						continue
+					}
+					get := `Get "` + o.addr + `/api/?key=`
+					prs := `parse "` + o.addr + `/api/?key=`
+					i := strings.Index(line, get)
+					if i < 0 {
+						i = strings.Index(line, prs)
+					}
+					if i < 0 {
 						all = false
+						continue
+					}
+					if strings.Contains(line[i:], "/api/?key="+needle+"&type=op&cmd=<show><high-availability>") {
+						phase = "ha_check"
+					}
+					if !strings.Contains(line[:i], "ERROR>>> ") {
+						lineKind = "other"
 					}
 				}
-				if all {
-					pred = "panos_transport_error_url"
+				switch {
+				case all && phase == "after_ha" && lineKind == "error_marker":
+					pred = "panos_transport_error_url" // the class of F-C17 (complement of leakPath = false)
+				case !all:
+					phase, lineKind = "n/a", "n/a"
+				case all:
+					// an error text with the request URL outside that class: its own predicate, so that the
+					// known finding cannot swallow it (and the cap per predicate does not drop it)
+					pred = "panos_error_url_outside_abort_after_ha"
 				}
+				e.res.Fail(map[string]any{"pred": pred, "sink": sink, "dev": c.Dev, "secret": kind, "form": form,
+					"phase": phase, "line": lineKind},
+					fmt.Sprintf("%s %s: %s found (%s) in %s [fault %s at %d]", c.Dev, c.Cmd, kind, form, rel, c.Fault, c.FaultAt),
+					map[string]any{"run": c})
+				e.res.Count("leak:" + pred + ":" + phase + ":" + sink)
+				continue
 			}
 			e.res.Fail(map[string]any{"pred": pred, "sink": sink, "dev": c.Dev, "secret": kind, "form": form},
 				fmt.Sprintf("%s %s: %s found (%s) in %s [fault %s at %d]", c.Dev, c.Cmd, kind, form, rel, c.Fault, c.FaultAt),
@@ -1121,12 +1182,22 @@ func (e *c17Env) wholeRuns() {
 		e.genRunSecrets(rng, c)
 		e.oneRun(c)
 	}
-	// corpus: the finding, minimal
+	// corpus: the finding, minimal; transport error exactly at the HA check (must stay clean); keygen
+	// request that fails after the <key> element has arrived
 	run(&runCase{Dev: "PAN-OS", Cmd: "do-approve approve", FaultAt: 2, Fault: "eof"})
+	for _, cmd := range runCmds {
+		run(&runCase{Dev: "PAN-OS", Cmd: cmd, FaultAt: 1, Fault: "eof", Variant: 1})
+		for v := 0; v < 4; v++ {
+			if thorough || (v+len(cmd))%2 == 0 {
+				run(&runCase{Dev: "PAN-OS", Cmd: cmd, FaultAt: 0, Fault: "trunc", Variant: v})
+				run(&runCase{Dev: "PAN-OS", Cmd: cmd, FaultAt: 0, Fault: "statuskey", Variant: v})
+			}
+		}
+	}
 	// HTTP devices: success and a fault of every kind at every request position
 	for _, dev := range []string{"PAN-OS", "NSX"} {
 		nreq := map[string]int{"PAN-OS": 8, "NSX": 5}[dev]
-		faults := []string{"eof", "status", "invalid"}
+		faults := []string{"eof", "status", "invalid", "trunc"}
 		for ci, cmd := range runCmds {
 			run(&runCase{Dev: dev, Cmd: cmd, FaultAt: -1, Variant: ci})
 			for pos := 0; pos < nreq; pos++ {
@@ -1173,10 +1244,10 @@ func (e *c17Env) wholeRuns() {
 			}
 			run(&runCase{Dev: dev, Cmd: cmd, FaultAt: -1, Fault: "wrongpass"})
 			for pos := 0; pos < nread; pos++ {
-				if thorough || (pos+ci)%4 == 0 {
+				if thorough || (pos+ci)%5 == 0 {
 					run(&runCase{Dev: dev, Cmd: cmd, FaultAt: pos, Fault: "close", Variant: 1})
 				}
-				if thorough && (pos < 6 || pos%3 == 0) || !thorough && pos == 1+di && ci == di {
+				if thorough && (pos < 6 || pos%3 == 0) || !thorough && pos == 1 && ci == di && di < 2 {
 					run(&runCase{Dev: dev, Cmd: cmd, FaultAt: pos, Fault: "silence", Variant: 1})
 				}
 			}
@@ -1193,7 +1264,7 @@ func (e *c17Env) wholeRuns() {
 			} else if devSSH[dev] {
 				c.Fault = "close"
 			} else {
-				c.Fault = Pick(rng, []string{"eof", "status", "invalid"})
+				c.Fault = Pick(rng, []string{"eof", "status", "invalid", "trunc"})
 			}
 			run(c)
 		}
